@@ -405,19 +405,9 @@ def _split_trailing(sub, alpha: Alphabet) -> Tuple[list, Lookahead]:
             continue
         if op in (sre_c.ASSERT, sre_c.ASSERT_NOT):
             direction, p = av
-            if direction != 1 or len(p) != 1:
-                raise AnalysisError("only single-character trailing look-ahead assertions are supported")
-            iop, iav = p[0]
-            if iop is sre_c.IN:
-                cls = alpha.classes_matching((iop, tuple(_freeze(x) for x in iav)))
-            elif iop in (sre_c.LITERAL, sre_c.NOT_LITERAL):
-                cls = alpha.classes_matching((iop, iav))
-            elif iop is sre_c.CATEGORY:
-                cls = alpha.classes_matching((sre_c.IN, ((sre_c.CATEGORY, iav),)))
-            elif iop is sre_c.ANY:
-                cls = alpha.classes_matching((iop, None))
-            else:
-                raise AnalysisError("unsupported look-ahead content")
+            if direction != 1:
+                raise AnalysisError("only trailing look-ahead assertions are supported")
+            cls = _lookahead_symbols(p, alpha)
             everything = frozenset(range(alpha.n)) | {END}
             allowed = frozenset(cls) if op is sre_c.ASSERT else everything - cls
             look.allowed = allowed if look.allowed is None else look.allowed & allowed
@@ -425,6 +415,31 @@ def _split_trailing(sub, alpha: Alphabet) -> Tuple[list, Lookahead]:
             continue
         break
     return items, look
+
+
+def _lookahead_symbols(p, alpha: Alphabet) -> FrozenSet[int]:
+    """Symbols (alphabet classes and/or END) a one-symbol look-ahead body matches: a character item,
+    an end anchor, or an alternation of those (e.g. (?=[ ),]|$))."""
+    items = _unwrap(list(p))
+    if len(items) != 1:
+        raise AnalysisError("only single-character look-ahead assertions are supported")
+    iop, iav = items[0]
+    if iop is sre_c.IN:
+        return alpha.classes_matching((iop, tuple(_freeze(x) for x in iav)))
+    if iop in (sre_c.LITERAL, sre_c.NOT_LITERAL):
+        return alpha.classes_matching((iop, iav))
+    if iop is sre_c.CATEGORY:
+        return alpha.classes_matching((sre_c.IN, ((sre_c.CATEGORY, iav),)))
+    if iop is sre_c.ANY:
+        return alpha.classes_matching((iop, None))
+    if iop is sre_c.AT and iav in (sre_c.AT_END, sre_c.AT_END_STRING):
+        return frozenset({END})
+    if iop is sre_c.BRANCH:
+        out: Set[int] = set()
+        for alt in iav[1]:
+            out |= _lookahead_symbols(alt, alpha)
+        return frozenset(out)
+    raise AnalysisError("unsupported look-ahead content")
 
 
 def _unwrap(items: list) -> list:
